@@ -1,3 +1,294 @@
-/-! Property C12 — theorems (statements live here, helper lemmas in Faithful/Lib) -/
+import Faithful.Lib.Parsers
+import Faithful.Lib.ParsersCbor
+
+/-!
+Property C12 — parsers of external data return errors, never crash, on arbitrary bytes.
+
+For every parser that is this repository's own code there is a total model `X : … bytes … → Res α` in
+`Faithful/Lib/Parsers.lean` (the REPAIRED code, fixes/C12-*.patch, line by line; `Res` = outcome ok|err|panic + the
+largest single allocation requested).  For each of them:
+
+* `X_no_panic : ∀ input w, (X input).outcome ≠ .panic w`
+* `X_alloc    : ∀ input, (X input).maxAlloc ≤ c·|input| + d`            ("not out of proportion")
+* termination: every model is defined by structural or well-founded recursion, without fuel — being a total Lean
+  function IS the termination theorem (there is no `hang` outcome to exclude).
+
+Quantifiers: ALL byte strings (`List UInt8`), all offsets / sizes / slots (`Nat`), every hash function, every zstd
+decoder, every CID parser that consumes no more than it is handed (`CidSpec`).  Two theorems carry the hypothesis
+`InMemory bs` (`bs.length ≤ 2^47`): they contain a `make` proportional to the input, and Go itself cannot hold a byte
+slice beyond 2^48 — without the hypothesis the *model's* `make` would hit the runtime limit for lists no machine can hold.
+
+The pinned behaviour is kept as `…Pinned` variants; `decide`-checked witnesses show the panics / the 4 GiB requests the
+design round measured.  The seven CBOR node decoders: `Ledger.FastFixed.decode` (repaired) over an arbitrary CBOR tree,
+`fast_decode_no_panic`, and `fast_decode_refines`: it equals property C11's model `Ledger.Fast.decode` of the pinned
+code wherever that one does not panic.
+
+Not proved (exercised by the harness only): zstd, protobuf / bincode metadata readers, go-cid, go-car's header codec,
+the CBOR byte parsers, `Bucket.Load`, `bucketteer.Reader.Has`.
+-/
 namespace C12
+open Px Px.Res
+
+/-- a `Safe` fact, unpacked into the two statements the property asks for -/
+theorem np_of_safe {α : Type} {B : Nat} {r : Res α} (h : Safe B r) : ∀ w, r.outcome ≠ .panic w := h.1
+theorem alloc_of_safe {α : Type} {B : Nat} {r : Res α} (h : Safe B r) : r.maxAlloc ≤ B := h.2
+
+/-! ## index metadata (indexmeta) -/
+
+theorem metaUnmarshal_no_panic (bs : Bytes) : ∀ w, (metaUnmarshal bs).outcome ≠ .panic w := (metaUnmarshal_safe bs).1
+/-- constant: the `KeyVals` slice of at most 255 pairs -/
+theorem metaUnmarshal_alloc (bs : Bytes) : (metaUnmarshal bs).maxAlloc ≤ 0 * bs.length + 24480 := by
+  have := (metaUnmarshal_safe bs).2
+  have h : metaMaxAlloc = 24480 := by decide
+  omega
+theorem metaGetUint64_no_panic (m : List KV) (k : Bytes) : ∀ w, (metaGetUint64 m k).outcome ≠ .panic w :=
+  (metaGetUint64_safe m k).1
+/-- `UnmarshalBinary` followed by `GetUint64`: the composition the index readers perform -/
+theorem meta_then_getUint64_no_panic (bs k : Bytes) :
+    ∀ w, (metaUnmarshal bs >>= fun m => metaGetUint64 m k).outcome ≠ .panic w :=
+  (safe_bind (safe_mono (metaUnmarshal_safe bs) (Nat.le_refl _)) (fun m _ => safe_mono (metaGetUint64_safe m k) (Nat.zero_le _))).1
+
+example : (metaUnmarshal [1, 1, 107, 1, 118]).outcome.isOk = true := by decide
+example : (metaGetUint64 [⟨[1], [1, 0, 0, 0, 0, 0, 0, 0]⟩] [1]).outcome.isOk = true := by decide
+/-- pinned: `GetUint64` on a 2-byte value panics (index out of range) -/
+theorem getUint64_pinned_panics : (metaGetUint64Pinned [⟨[101], [1, 2]⟩] [101]).outcome.isPanic = true := by decide
+/-- … and the repaired accessor answers "not there" on the same input -/
+example : (metaGetUint64 [⟨[101], [1, 2]⟩] [101]).outcome.isOk = true := by decide
+
+/-! ## typed index metadata (indexes.getDefaultMetadata) and offset-and-size values -/
+
+theorem defaultMetadata_no_panic (kvs : List KV) (castOk : Bool) : ∀ w, (defaultMetadata kvs castOk).outcome ≠ .panic w :=
+  (defaultMetadata_safe kvs castOk).1
+theorem defaultMetadata_alloc (kvs : List KV) (castOk : Bool) : (defaultMetadata kvs castOk).maxAlloc ≤ 0 :=
+  (defaultMetadata_safe kvs castOk).2
+
+def exampleMeta : List KV :=
+  [⟨keyKind, [1]⟩, ⟨keyEpoch, [7, 0, 0, 0, 0, 0, 0, 0]⟩, ⟨keyRootCid, [1]⟩, ⟨keyNetwork, [2]⟩]
+example : (defaultMetadata exampleMeta true).outcome.isOk = true := by decide
+/-- pinned: an epoch value shorter than 8 bytes panics in `BtoUint64` -/
+theorem defaultMetadata_pinned_panics :
+    (defaultMetadataPinned [⟨keyKind, [1]⟩, ⟨keyEpoch, []⟩] true).outcome.isPanic = true := by decide
+
+theorem oasFromBytes_no_panic (bs : Bytes) : ∀ w, (oasFromBytes bs).outcome ≠ .panic w := (oasFromBytes_safe bs).1
+theorem oasFromBytes_alloc (bs : Bytes) : (oasFromBytes bs).maxAlloc ≤ 0 * bs.length + 8 := by
+  have := (oasFromBytes_safe bs).2; omega
+theorem oasSliceFromBytes_no_panic (bs : Bytes) (hm : InMemory bs) : ∀ w, (oasSliceFromBytes bs).outcome ≠ .panic w :=
+  (oasSliceFromBytes_safe bs hm).1
+theorem oasSliceFromBytes_alloc (bs : Bytes) (hm : InMemory bs) : (oasSliceFromBytes bs).maxAlloc ≤ 2 * bs.length + 8 :=
+  (oasSliceFromBytes_safe bs hm).2
+
+example : (oasFromBytes [1, 0, 0, 0, 0, 0, 2, 0, 0]).outcome.isOk = true := by decide
+example : (oasSliceFromBytes [1, 0, 0, 0, 0, 0, 2, 0, 0, 3, 0, 0, 0, 0, 0, 4, 0, 0]).outcome.isOk = true := by decide
+
+/-! ## compact index (compactindexsized): Open / Header.Load, GetBucket, Lookup -/
+
+theorem ciOpen_no_panic (f : Bytes) : ∀ w, (ciOpen f).outcome ≠ .panic w := (ciOpen_safe f).1
+/-- constant: the header buffer, bounded by the largest header the format can express -/
+theorem ciOpen_alloc (f : Bytes) : (ciOpen f).maxAlloc ≤ 0 * f.length + 130586 := by
+  have := (ciOpen_safe f).2
+  have h : ciOpenMaxAlloc = 130586 := by decide
+  omega
+theorem ciLoad_no_panic (buf : Bytes) : ∀ w, (ciLoad buf).outcome ≠ .panic w := (ciLoad_safe buf).1
+/-- every lookup on every opened file: any bucket index, any key hash, with and without prefetch -/
+theorem ciLookup_no_panic (f : Bytes) (h : CIHeader) (prefetch : Bool) (bucket : Nat) (hash : Nat → Nat) :
+    ∀ w, (ciLookup f h prefetch bucket hash).outcome ≠ .panic w := (ciLookup_safe f h prefetch bucket hash).1
+/-- constant: the prefetch buffer (3000 entries of at most 255 bytes) -/
+theorem ciLookup_alloc (f : Bytes) (h : CIHeader) (prefetch : Bool) (bucket : Nat) (hash : Nat → Nat) :
+    (ciLookup f h prefetch bucket hash).maxAlloc ≤ 0 * f.length + 765000 := by
+  have := (ciLookup_safe f h prefetch bucket hash).2
+  have h : ciLookupMaxAlloc = 765000 := by decide
+  omega
+/-- open, then look up: the composition, on ALL bytes -/
+theorem ciOpen_then_lookup_no_panic (f : Bytes) (prefetch : Bool) (bucket : Nat) (hash : Nat → Nat) :
+    ∀ w, (ciOpen f >>= fun h => ciLookup f h prefetch bucket hash).outcome ≠ .panic w :=
+  (safe_bind (safe_mono (ciOpen_safe f) (Nat.le_max_left _ ciLookupMaxAlloc))
+    (fun h _ => safe_mono (ciLookup_safe f h prefetch bucket hash) (Nat.le_max_right ciOpenMaxAlloc _))).1
+
+/-- magic ‖ length 14 ‖ value size 9 ‖ 1 bucket ‖ version 1 ‖ no metadata -/
+def ciMinimal : Bytes := ciMagic ++ [14, 0, 0, 0] ++ [9, 0, 0, 0, 0, 0, 0, 0] ++ [1, 0, 0, 0] ++ [1] ++ [0]
+example : (ciOpen ciMinimal).outcome.isOk = true := by decide
+/-- a header whose length field is 12: 24 bytes in all -/
+def ciLen12 : Bytes := ciMagic ++ [12, 0, 0, 0] ++ [9, 0, 0, 0, 0, 0, 0, 0] ++ [1, 0, 0, 0]
+/-- pinned `Open` panics on it (`buf[24]` after `len ≥ 12`) … -/
+theorem open_pinned_panics : (ciOpenPinned ciLen12).outcome.isPanic = true := by decide
+/-- … the repaired `Open` returns an error -/
+example : (ciOpen ciLen12).outcome.cls = "err" := by decide
+/-- pinned: length field 0xFFFFFFFF wraps `8+4+size` to 11 and `buf[8:12]` panics -/
+theorem open_pinned_wrap_panics : (ciOpenPinned (ciMagic ++ [255, 255, 255, 255] ++ [0, 0, 0, 0])).outcome.isPanic = true := by decide
+/-- pinned: length field 0xFFFFFFF0 on a 16-byte file requests 4 GiB before failing -/
+theorem open_pinned_alloc : (ciOpenPinned (ciMagic ++ [240, 255, 255, 255] ++ [0, 0, 0, 0])).maxAlloc = 4294967292 := by decide
+example : (ciOpen (ciMagic ++ [240, 255, 255, 255] ++ [0, 0, 0, 0])).maxAlloc = 0 := by decide
+
+/-! ## signature-existence index (bucketteer): NewReader / readHeader -/
+
+theorem bkOpen_no_panic (f : Bytes) : ∀ w, (bkOpen f).outcome ≠ .panic w := (bkOpen_safe f).1
+/-- constant: the header buffer, bounded by the largest header the format can express -/
+theorem bkOpen_alloc (f : Bytes) : (bkOpen f).maxAlloc ≤ 0 * f.length + 785945 := by
+  have := (bkOpen_safe f).2
+  have h : bkOpenMaxAlloc = 785945 := by decide
+  omega
+
+/-- size 25 ‖ "buckette" ‖ version 2 ‖ no metadata ‖ 0 prefixes -/
+def bkMinimal : Bytes := [25, 0, 0, 0] ++ bkMagic ++ [2, 0, 0, 0, 0, 0, 0, 0] ++ [0] ++ [0, 0, 0, 0, 0, 0, 0, 0]
+example : (bkOpen bkMinimal).outcome.isOk = true := by decide
+/-- pinned: header size 0xFFFFFFF0 on a 7-byte input requests 4 GiB, then fails -/
+theorem bk_pinned_alloc : (bkOpenPinnedAlloc [240, 255, 255, 255, 0, 0, 0]).maxAlloc = 4294967280 := by decide
+example : (bkOpen [240, 255, 255, 255, 0, 0, 0]).maxAlloc ≤ 524288 := by decide
+
+/-! ## slot-to-blocktime index (blocktimeindex) -/
+
+theorem btUnmarshal_no_panic (bs : Bytes) (hm : InMemory bs) : ∀ w, (btUnmarshal bs).outcome ≠ .panic w :=
+  (btUnmarshal_safe bs hm).1
+theorem btUnmarshal_alloc (bs : Bytes) (hm : InMemory bs) : (btUnmarshal bs).maxAlloc ≤ 2 * bs.length + 14 :=
+  (btUnmarshal_safe bs hm).2
+theorem btGet_no_panic (i : BT) (slot : Nat) : ∀ w, (btGet i slot).outcome ≠ .panic w := (btGet_safe i slot).1
+
+def btHeader (capacity : Bytes) : Bytes :=
+  btMagic ++ [128, 151, 6, 0, 0, 0, 0, 0] ++ [138, 151, 6, 0, 0, 0, 0, 0] ++ [1, 0, 0, 0, 0, 0, 0, 0] ++ capacity
+/-- start 432000, end 432010, epoch 1, capacity 1, one value -/
+def btOne : Bytes := btHeader [1, 0, 0, 0, 0, 0, 0, 0] ++ [7, 0, 0, 0]
+example : (btUnmarshal btOne).outcome.isOk = true := by decide
+example : (btUnmarshal btOne >>= fun i => btGet i 432000).outcome.isOk = true := by decide
+/-- pinned: capacity 2^62 panics in `make` -/
+theorem bt_pinned_makeslice_panics : (btUnmarshalPinned (btHeader [0, 0, 0, 0, 0, 0, 0, 64])).outcome.isPanic = true := by decide
+/-- pinned: capacity 1, then `Get(start+5)` indexes out of range -/
+theorem bt_pinned_get_panics : (btUnmarshalPinned btOne >>= fun i => btGetPinned i 432005).outcome.isPanic = true := by decide
+example : (btUnmarshal btOne >>= fun i => btGet i 432005).outcome.isOk = true := by decide
+
+/-! ## CAR sections -/
+
+theorem readSectionLength_no_panic (bs : Bytes) : ∀ w, (readSectionLength bs).outcome ≠ .panic w := (readSectionLength_safe bs).1
+theorem readNodeInfoWithData_no_panic (cidLen : Bytes → Option Nat) (bs : Bytes) :
+    ∀ w, (readNodeInfoWithData cidLen bs).outcome ≠ .panic w := (readNodeInfoWithData_safe cidLen bs).1
+/-- constant: go-car's section limit (32 MiB) and the bufio buffer; the input length does not enter -/
+theorem readNodeInfoWithData_alloc (cidLen : Bytes → Option Nat) (bs : Bytes) :
+    (readNodeInfoWithData cidLen bs).maxAlloc ≤ 0 * bs.length + 33558528 := by
+  have := (readNodeInfoWithData_safe cidLen bs).2
+  have h : sectionMaxAlloc = 33558528 := by decide
+  omega
+theorem readNodeInfoWithoutData_no_panic (cidLen : Bytes → Option Nat) (bs : Bytes) :
+    ∀ w, (readNodeInfoWithoutData cidLen bs).outcome ≠ .panic w := (readNodeInfoWithoutData_safe cidLen bs).1
+theorem parseNodeFromSection_no_panic (cidLen : Bytes → Option Nat) (hc : CidSpec cidLen) (sec : Bytes) (want : Option Bytes) :
+    ∀ w, (parseNodeFromSection cidLen sec want).outcome ≠ .panic w := (parseNodeFromSection_safe cidLen hc sec want).1
+theorem parseNodeFromSection_alloc (cidLen : Bytes → Option Nat) (hc : CidSpec cidLen) (sec : Bytes) (want : Option Bytes) :
+    (parseNodeFromSection cidLen sec want).maxAlloc ≤ 0 := (parseNodeFromSection_safe cidLen hc sec want).2
+theorem readNodeSize_no_panic (f : Bytes) (off : Nat) : ∀ w, (readNodeSize f off).outcome ≠ .panic w := (readNodeSize_safe f off).1
+theorem readNodeSize_alloc (f : Bytes) (off : Nat) : (readNodeSize f off).maxAlloc ≤ 0 * f.length + 10 := by
+  have := (readNodeSize_safe f off).2; omega
+
+/-- a CID parser for the examples: two bytes, if they are there -/
+def cid2 (b : Bytes) : Option Nat := if b.length < 2 then none else some 2
+theorem cid2_spec : CidSpec cid2 := by
+  intro b n h; unfold cid2 at h; split at h
+  · cases h
+  · cases h; omega
+example : (readNodeInfoWithData cid2 [3, 1, 2, 9]).outcome.isOk = true := by decide
+example : (parseNodeFromSection cid2 [3, 1, 2, 9] (some [1, 2])).outcome.isOk = true := by decide
+/-- pinned: a section whose declared length (1) is smaller than its CID (2) panics in `make` -/
+theorem rnid_pinned_panics : (readNodeInfoWithDataPinned cid2 [1, 1, 2, 9]).outcome.isPanic = true := by decide
+example : (readNodeInfoWithData cid2 [1, 1, 2, 9]).outcome.cls = "err" := by decide
+
+/-! ## kind dispatch and first signature -/
+
+theorem getKind_no_panic (data : Bytes) : ∀ w, (getKind data).outcome ≠ .panic w := (getKind_safe data).1
+theorem getKind_alloc (data : Bytes) : (getKind data).maxAlloc ≤ 0 := (getKind_safe data).2
+example : (getKind [134, 2]).outcome.isOk = true := by decide
+/-- pinned: `data[1]` on a 1-byte object panics -/
+theorem kind_pinned_panics : (kindPinned [128]).outcome.isPanic = true := by decide
+
+theorem readFirstSignature_no_panic (buf : Bytes) : ∀ w, (readFirstSignature buf).outcome ≠ .panic w := (readFirstSignature_safe buf).1
+theorem readFirstSignature_alloc (buf : Bytes) : (readFirstSignature buf).maxAlloc ≤ 0 * buf.length + 64 := by
+  have := (readFirstSignature_safe buf).2; omega
+example : (readFirstSignature (1 :: List.replicate 64 5)).outcome.isOk = true := by decide
+
+/-! ## gsfa linked log and manifest -/
+
+theorem llFrame_no_panic (f : Bytes) (off size : Nat) : ∀ w, (llFrame f off size).outcome ≠ .panic w := (llFrame_safe f off size).1
+/-- the record buffer is never larger than the file -/
+theorem llFrame_alloc (f : Bytes) (off size : Nat) : (llFrame f off size).maxAlloc ≤ 1 * f.length + 10 := by
+  have := (llFrame_safe f off size).2; omega
+theorem llRead_no_panic (f : Bytes) (off : Nat) : ∀ w, (llRead f off).outcome ≠ .panic w := (llRead_safe f off).1
+theorem llRead_alloc (f : Bytes) (off : Nat) : (llRead f off).maxAlloc ≤ 1 * f.length + 10 := by
+  have := (llRead_safe f off).2; omega
+theorem entriesFromBytes_no_panic (bs : Bytes) : ∀ w, (entriesFromBytes bs).outcome ≠ .panic w := (entriesFromBytes_safe bs).1
+theorem entriesFromBytes_alloc (bs : Bytes) : (entriesFromBytes bs).maxAlloc ≤ 64 * bs.length + 64 := (entriesFromBytes_safe bs).2
+theorem entryFromBytes_no_panic (bs : Bytes) : ∀ w, (entryFromBytes bs).outcome ≠ .panic w := (entryFromBytes_safe bs).1
+/-- `ReadWithSize` end to end, for EVERY zstd decoder `z`: no panic; allocation bounded by the file and by what the
+    decoder hands back (`R` bounds its output) -/
+theorem llReadWithSize_safe (z : Bytes → Option Bytes) (R : Nat) (hz : ∀ p r, z p = some r → r.length ≤ R)
+    (f : Bytes) (off size : Nat) : Safe (f.length + 64 * R + 74) (llReadWithSize z f off size) := by
+  unfold llReadWithSize
+  refine safe_bind (safe_mono (llFrame_safe f off size) (by omega)) (fun p _ => ?_)
+  obtain ⟨payload, next⟩ := p
+  simp only []
+  split
+  · exact safe_fail _ _
+  · rename_i raw hr
+    have := hz _ _ hr
+    refine safe_bind (safe_mono (entriesFromBytes_safe raw) (by omega)) (fun _ _ => safe_ok _ _)
+theorem llReadWithSize_no_panic (z : Bytes → Option Bytes) (f : Bytes) (off size : Nat) :
+    ∀ w, (llReadWithSize z f off size).outcome ≠ .panic w := by
+  unfold llReadWithSize
+  refine noPanic_bind (llFrame_safe f off size).noPanic (fun p _ => ?_)
+  obtain ⟨payload, next⟩ := p
+  simp only []
+  split
+  · exact (safe_fail 0 _).noPanic
+  · exact noPanic_bind (entriesFromBytes_safe _).noPanic (fun _ _ => (safe_ok 0 _).noPanic)
+
+/-- a record: prefix 9 ‖ empty payload ‖ 9-byte previous pointer -/
+def llOne : Bytes := [9, 0, 0, 0, 0, 0, 0, 0, 0, 0]
+example : (llFrame llOne 0 10).outcome.isOk = true := by decide
+example : (llRead llOne 0).outcome.isOk = true := by decide
+/-- before fix C12: a bogus size of 200 MiB on an empty file is allocated, then the read fails -/
+theorem ll_unchecked_alloc : (llFrameG false [] 0 209715200).maxAlloc = 209715200 := by decide
+example : (llFrame [] 0 209715200).maxAlloc = 0 := by decide
+example : (entryFromBytes [1, 2, 3, 7]).outcome.isOk = true := by decide
+
+theorem mfOpen_no_panic (f : Bytes) (hm : InMemory f) : ∀ w, (mfOpen f).outcome ≠ .panic w := (mfOpen_safe f hm).1
+theorem mfOpen_alloc (f : Bytes) (hm : InMemory f) : (mfOpen f).maxAlloc ≤ 1 * f.length + 28576 := by
+  have := (mfOpen_safe f hm).2
+  have h : mfConst = 28576 := by decide
+  omega
+/-- "gsfamnfs" ‖ version 5 ‖ no metadata ‖ one tuple -/
+def mfOne : Bytes := mfMagic ++ [5, 0, 0, 0, 0, 0, 0, 0] ++ [0] ++ List.replicate 16 1
+example : (mfOpen mfOne).outcome.isOk = true := by decide
+
+/-! ## the seven hand-written CBOR node decoders, over an arbitrary CBOR tree -/
+
+open Ledger in
+/-- the repaired decoders (`iplddecoders.Decode<Kind>`) never panic, for every kind and every CBOR tree -/
+theorem fast_decode_no_panic (k : Kind) (v : Cbor.Val) : ∀ w, FastFixed.decode k v ≠ Ledger.Outcome.panic w :=
+  FastFixed.np_decode k v
+
+open Ledger in
+/-- the repair changes nothing else: C11's model of the pinned decoders returns the same outcome, or a panic -/
+theorem fast_decode_refines (k : Kind) (v : Cbor.Val) :
+    Fast.decode k v = FastFixed.decode k v ∨ ∃ w, Fast.decode k v = Ledger.Outcome.panic w :=
+  FastFixed.ref_decode k v
+
+open Ledger Cbor in
+example : ∃ n, FastFixed.decode .epoch (.arr [.uint 4, .uint 7, .arr []]) = Ledger.Outcome.ok n := ⟨_, rfl⟩
+
+/-- pinned: `DecodeBlock` with `meta` not a list -/
+theorem block_meta_pinned_panics : ∃ w, Ledger.Fast.decode .block
+    (.arr [.uint 2, .uint 1, .arr [], .arr [], .uint 0, .null]) = Ledger.Outcome.panic w := ⟨_, rfl⟩
+/-- pinned: `DecodeEntry` with `hash` not bytes -/
+theorem entry_hash_pinned_panics : ∃ w, Ledger.Fast.decode .entry
+    (.arr [.uint 1, .uint 1, .uint 0, .arr []]) = Ledger.Outcome.panic w := ⟨_, rfl⟩
+/-- pinned: `DecodeTransaction` with `data` not a list -/
+theorem transaction_data_pinned_panics : ∃ w, Ledger.Fast.decode .transaction
+    (.arr [.uint 0, .uint 0, .arr [], .uint 1]) = Ledger.Outcome.panic w := ⟨_, rfl⟩
+/-- pinned: `DecodeRewards` with `data` not a list -/
+theorem rewards_data_pinned_panics : ∃ w, Ledger.Fast.decode .rewards
+    (.arr [.uint 5, .uint 1, .text []]) = Ledger.Outcome.panic w := ⟨_, rfl⟩
+/-- pinned: a link whose tag-42 content is the empty byte string -/
+theorem empty_link_pinned_panics : ∃ w, Ledger.Fast.decode .epoch
+    (.arr [.uint 4, .uint 7, .arr [.tag 42 (.bytes [])]]) = Ledger.Outcome.panic w := ⟨_, rfl⟩
+/-- … each of which the repaired decoders turn into an error -/
+example : ∃ e, Ledger.FastFixed.decode .block
+    (.arr [.uint 2, .uint 1, .arr [], .arr [], .uint 0, .null]) = Ledger.Outcome.err e := ⟨_, rfl⟩
+example : ∃ e, Ledger.FastFixed.decode .epoch
+    (.arr [.uint 4, .uint 7, .arr [.tag 42 (.bytes [])]]) = Ledger.Outcome.err e := ⟨_, rfl⟩
+
 end C12
